@@ -101,7 +101,8 @@ def patch_connection():
                         s2.emit("msg_cb_ret", cb=_n, **_tag)
             _wrappers[key] = wrapper
         if s is not None and not s.finished:
-            ev = s.emit("call", op=["reg", n], ctx=f"api@{s.cur.role if s.cur else '?'}", **tag(self))
+            owner = getattr(cb, "__self__", None)
+            ev = s.emit("call", op=["reg", n], ctx=f"api@{s.cur.role if s.cur else '?'}", cls=key[0], sid=(str(getattr(getattr(owner, "id", None), "value", getattr(owner, "id", None)) or "") or None) if owner is not None else None, **tag(self))
         orig_reg(self, _wrappers[key])
         if s is not None and not s.finished:
             s.emit("ret", call=ev["seq"], op=["reg", n], ctx=ev["ctx"], exc=None, msg=None, res=None, **tag(self))
@@ -110,7 +111,7 @@ def patch_connection():
         s = sched.S
         n, key = cbid(cb)
         if s is not None and not s.finished:
-            ev = s.emit("call", op=["unreg", n], ctx=f"api@{s.cur.role if s.cur else '?'}", **tag(self))
+            ev = s.emit("call", op=["unreg", n], ctx=f"api@{s.cur.role if s.cur else '?'}", cls=key[0], **tag(self))
         orig_unreg(self, _wrappers.get(key, cb))
         if s is not None and not s.finished:
             s.emit("ret", call=ev["seq"], op=["unreg", n], ctx=ev["ctx"], exc=None, msg=None, res=None, **tag(self))
@@ -221,7 +222,7 @@ class ApiSession:
             except BaseException as e:  # noqa: BLE001
                 exc = e
             api.emit("api_ret", call=ev["seq"], op="initialize", exc=type(exc).__name__ if exc else None, msg=str(exc)[:200] if exc else None,
-                     state=self.dump_api(a), conn_none=a._connection is None)
+                     state=self.dump_api(a), conn_none=a._connection is None, order=[str(getattr(k, "value", k)) for k in a._subunits.keys()])
             if spec.get("other_device"):
                 # afterwards ANOTHER YncaApi object of the same process is initialised against another (healthy) receiver: that is nobody's
                 # business but its own — the first object's state is looked at again
